@@ -82,7 +82,11 @@ impl<S: McSystem> McSystem for Diff<S> {
 }
 
 fn hist_sys<A: crate::kinds::Kind, B: crate::kinds::Kind, C: crate::kinds::Kind>(alphabet: Alphabet, n: usize, perturb: bool) -> Hist<A, B, C> {
-    Hist { alphabet, prop: hist::Prop::C20, n_create: n, reg: [RegPath::Register, RegPath::SetupRead, RegPath::SetupWrite], triples: false, perturb, note_prefix: format!("{{\"engine\":\"mc-det\",\"property\":\"C20\",\"part\":\"hist-{:?}\",\"ops\":", alphabet), _p: PhantomData }
+    hist_sys_t::<A, B, C>(alphabet, n, perturb, false)
+}
+
+fn hist_sys_t<A: crate::kinds::Kind, B: crate::kinds::Kind, C: crate::kinds::Kind>(alphabet: Alphabet, n: usize, perturb: bool, triples: bool) -> Hist<A, B, C> {
+    Hist { alphabet, prop: hist::Prop::C20, n_create: n, reg: [RegPath::Register, RegPath::SetupRead, RegPath::SetupWrite], triples, perturb, note_prefix: format!("{{\"engine\":\"mc-det\",\"property\":\"C20\",\"part\":\"hist-{:?}\",\"ops\":", alphabet), _p: PhantomData }
 }
 
 fn store_sys<T: crate::kinds::Kind, U: crate::kinds::Kind>(perturb: bool) -> Store<T, U> {
@@ -174,6 +178,9 @@ fn all_parts(differential: bool, thorough: bool) -> Vec<PartResult> {
     let hj = |ops: &[hist::Op]| serde_json::to_value(ops).unwrap();
     let d = if thorough { 1 } else { 0 };
     out.push(run_part("hist-E1", differential, hist_sys::<CHash, CDense, CVec>(Alphabet::E1, 4 + d, false), hist_sys::<CHash, CDense, CVec>(Alphabet::E1, 4 + d, true), 12, &hs, &hj));
+    // three-element batch deletions (every shape, including two live handles in front of a failing
+    // one) followed by a creation: the order in which a partly applied batch frees its indices
+    out.push(run_part("hist-E1-triples", differential, hist_sys_t::<CHash, CDense, CVec>(Alphabet::E1, 4, false, true), hist_sys_t::<CHash, CDense, CVec>(Alphabet::E1, 4, true, true), 6 + d, &hs, &hj));
     out.push(run_part("hist-E2", differential, hist_sys::<CHash, CDense, FHash>(Alphabet::E2, 3, false), hist_sys::<CHash, CDense, FHash>(Alphabet::E2, 3, true), 5 + d, &hs, &hj));
     out.push(run_part("hist-E3", differential, hist_sys::<CHash, DHash, CVec>(Alphabet::E3, 3, false), hist_sys::<CHash, DHash, CVec>(Alphabet::E3, 3, true), 4 + d, &hs, &hj));
     let ss = |ops: &[store::Op]| store::show_ops(ops);
